@@ -94,6 +94,34 @@ end
 hmk :: fn -> Zb2 do
     Zb2 { a: 1, b: "s" }
 end
+
+zinf_add :: fn a ->
+    a + 1
+end
+
+zinf_cmp :: fn a, b ->
+    a < b
+end
+
+zinf_neg :: fn a ->
+    -a
+end
+
+zinf_mul :: fn a, b ->
+    a * b
+end
+
+zgen_add :: fn a: *A, b: *A -> *A do
+    a + b
+end
+
+zinf_fld :: fn p ->
+    p.nope
+end
+
+zinf_call :: fn f, x ->
+    x
+end
 "#;
 
 // ---------------------------------------------------------------- C03 kinds
@@ -140,6 +168,23 @@ pub const C03_KINDS: &[Kind] = &[
     k("assignment of another type", Body::Stmts(&["zm := 1", "zm = \"s\""])),
     k("compound assignment of another type", Body::Stmts(&["zm := 1", "zm += \"s\""])),
     k("if-expression arms of different types", Body::Stmts(&["zq := if true do 1 else do \"s\" end"])),
+    // the same mismatches with variables as operands (larger inference classes than literals)
+    k("int + str through variables", Body::Stmts(&["zi :: 1", "zs :: \"s\"", "zq := zi + zs"])),
+    k("str - int through variables", Body::Stmts(&["zi :: 1", "zs :: \"s\"", "zq := zs - zi"])),
+    k("bool < bool through variables", Body::Stmts(&["zt :: true", "zf :: false", "zq := zt < zf"])),
+    k("neg of bool variable", Body::Stmts(&["zt :: true", "zq := -zt"])),
+    k("int == str through variables", Body::Stmts(&["zi :: 1", "zs :: \"s\"", "zq := zi == zs"])),
+    // ... and deferred through un-annotated functions
+    k("un-annotated `a + 1` called with str variable", Body::Stmts(&["zs :: \"x\"", "zinf_add(zs)"])),
+    k("un-annotated `a + 1` called with str literal", Body::Stmts(&["zinf_add(\"x\")"])),
+    k("un-annotated `a + 1` used at int, then at str variable", Body::Stmts(&["zinf_add(1)", "zs :: \"x\"", "zinf_add(zs)"])),
+    k("un-annotated `a < b` called with bool variables", Body::Stmts(&["zt :: true", "zf :: false", "zinf_cmp(zt, zf)"])),
+    k("un-annotated `-a` called with bool variable", Body::Stmts(&["zt :: true", "zinf_neg(zt)"])),
+    k("un-annotated `a * b` called with int and str variables", Body::Stmts(&["zi :: 2", "zs :: \"x\"", "zinf_mul(zi, zs)"])),
+    k("generic `a + b` called with bool variables", Body::Stmts(&["zt :: true", "zgen_add(zt, zt)"])),
+    k("generic `a + b` called with int and str variables", Body::Stmts(&["zi :: 2", "zs :: \"x\"", "zgen_add(zi, zs)"])),
+    k("Num-constrained abs called with str variable", Body::Stmts(&["zs :: \"x\"", "zq := abs(zs)"])),
+    k("mutable variable of one type passed where another is needed", Body::Stmts(&["zm := \"x\"", "zm = zm + \"y\"", "zh1(zm)"])),
 ];
 
 // ---------------------------------------------------------------- C04 kinds
@@ -201,6 +246,8 @@ pub const C05_KINDS: &[Kind] = &[
     k("field access: blob lacks field (through call)", Body::Stmts(&["zw :: hmk().nope"])),
     k("field assignment: blob lacks field", Body::Stmts(&["zv := Zb2 { a: 1, b: \"s\" }", "zv.nope = 1"])),
     k("field access on int", Body::Stmts(&["zi :: 1", "zw :: zi.a"])),
+    k("field access through un-annotated function: blob variable lacks field", Body::Stmts(&["zo :: Zb2 { a: 1, b: \"s\" }", "zinf_fld(zo)"])),
+    k("field access through un-annotated function: blob literal lacks field", Body::Stmts(&["zinf_fld(Zb2 { a: 1, b: \"s\" })"])),
     k("variant construction: enum lacks variant (payload)", Body::Expr("Ze2.D 1")),
     k("variant construction: enum lacks variant", Body::Stmts(&["zq :: Ze2.D"])),
     k("variant construction: Maybe lacks variant", Body::Stmts(&["zq :: Maybe.Some 1"])),
